@@ -25,7 +25,8 @@ NB == <<98>>
 NF == <<102>>
 \* "small": one name, two slots; "names2": two names, one slot (no clone); "zeros": one name, one slot, the zero values; "full": two names, two slots (simulation only)
 Names == IF Size \in {"small", "zeros"} THEN {NA} ELSE {NA, NB}
-FuncNames == IF Size = "full" THEN {NF, NA} ELSE IF Size = "names2" THEN {NA} ELSE {NF}   \* a function may share a variable's name
+FuncNames == IF Size = "full" THEN {NF, NA} ELSE IF Size = "names2" THEN {NA}
+             ELSE IF Size = "zeros" THEN {NF, <<109, 97, 120>>} ELSE {NF}              \* a function may share a variable's name
 
 \* values with a source form: [v |-> value, t |-> tokens]
 Lit(v, x) == [v |-> v, t |-> <<TLit(v, x)>>]
@@ -51,7 +52,9 @@ ValsZeros == {Lit(VFloat(FZ), <<48, 46, 48>>), [v |-> VFloat(FNZ), t |-> <<TOp("
               [v |-> VTuple(<<VNat(1), VFloat(FNZ)>>), t |-> <<TOp("("), TLit(VNat(1), <<49>>), TOp(","), TOp("-"), ZeroLit, TOp(")")>>],
               Lit(VNat(1), <<49>>)}
 Vals == IF Size = "full" THEN ValsFull ELSE IF Size = "zeros" THEN ValsZeros ELSE ValsSmall
-Behs == IF Size = "full" THEN {BehId, BehConst(VNat(1))} ELSE {BehId}
+\* "zeros" also has two behaviours per function name (a function that is bound again must be replaced) and the name of
+\* a builtin among the function names (max: defining and clearing it changes what `max(1, 2)` resolves to)
+Behs == IF Size \in {"full", "zeros"} THEN {BehId, BehConst(VNat(1))} ELSE {BehId}
 
 Absent == [kind |-> "Absent", vars |-> EmptyMap, funcs |-> EmptyMap, nb |-> FALSE]
 Slots == {0, 1}
